@@ -1,4 +1,5 @@
 import Postcard.Props.C01
+import Postcard.Props.EndToEnd
 -- property theorems of C01: every one must depend only on propext / Classical.choice / Quot.sound
 #print axioms Postcard.roundtrip
 #print axioms Postcard.roundtrip_tuple
@@ -15,3 +16,4 @@ import Postcard.Props.C01
 #print axioms Postcard.unzigzag_zigzag
 #print axioms Postcard.utf8Next_encode
 #print axioms Postcard.ofLeBytes_leBytes
+#print axioms Postcard.to_slice_then_from_bytes
